@@ -24,6 +24,33 @@ def build_profile(spec):
     return profiles.make_profile(lib, st, [tuple(e) for e in edits])
 
 
+def structure_follows(el, ref, path, bad):
+    """every element of a tree parsed / built under a profile must carry the profile's sub-reference for its own position:
+    same child names in the same order, same cardinalities, same datatype"""
+    if len(bad) >= 3 or not gen.is_seq(ref):
+        return
+    if el.classname in ('Message', 'Group', 'Segment') and len(ref) >= 2 and gen.is_seq(ref[1]):
+        rows = [r for r in ref[1] if gen.is_seq(r) and len(r) == 4]
+        want_names = [r[0] for r in rows]
+        want_reps = {r[0]: tuple(r[2]) for r in rows}
+        if len(set(want_names)) != len(want_names):
+            pass        # a structure repeating a child name: the library renames the later rows (finding D17); no claim
+        elif list(el.ordered_children or []) != want_names:
+            bad.append('%s: children %s, profile says %s' % ('/'.join(path), list(el.ordered_children or [])[:8], want_names[:8]))
+        elif {k: tuple(v) for k, v in el.repetitions.items()} != want_reps:
+            diff = [(k, tuple(el.repetitions.get(k, ())), want_reps[k]) for k in want_reps if tuple(el.repetitions.get(k, ())) != want_reps[k]][:3]
+            bad.append('%s: cardinalities differ from the profile: %s' % ('/'.join(path), diff))
+        byname = {r[0]: r[1] for r in rows}
+        seen = {}
+        for c in el.children:
+            if c.name in byname and c.classname in ('Group', 'Segment', 'Field'):
+                seen[c.name] = seen.get(c.name, 0) + 1
+                structure_follows(c, byname[c.name], path + ['%s[%d]' % (c.name, seen[c.name] - 1)], bad)
+    elif el.classname == 'Field' and len(ref) == 6:
+        if ref[2] != 'varies' and el.datatype != ref[2] and not (ref[0] == 'leaf' and el.datatype is None):
+            bad.append('%s: datatype %s, profile says %s' % ('/'.join(path), el.datatype, ref[2]))
+
+
 def pmsg(job):
     """(text, strict, find_groups, spec) -> parse_message(text, message_profile=p).to_er7() + tree # validate() against the profile"""
     from hl7apy.parser import parse_message
@@ -43,7 +70,13 @@ def pmsg(job):
         val = 'ok ' + '|'.join(impl.canon_err(e) for e in r.errors)
     except Exception as e:  # noqa
         val = 'valexc ' + vlib.exc_name(e)
-    return enc + ' # ' + val
+    bad = []
+    if p is not None and spec[3] == 'present' and m.name in p:
+        try:
+            structure_follows(m, p[m.name], [m.name], bad)
+        except Exception as e:  # noqa
+            bad.append('HARNESS ' + vlib.exc_name(e))
+    return enc + ' # ' + val + (' @ ' + json.dumps(bad) if bad else '')
 
 
 def model_line(job):
@@ -283,12 +316,39 @@ def run(tier, seed):
                 jobs.append((text, False, fg, (v, st, [], mode)))
                 meta.append({'kind': mode, 'version': v, 'structure': st})
             cands = candidate_edits(rng, lib, st, ex.get(v, []))
+            # a group that occurs more than once in an instance, with an edit that speaks about that group: every repetition must carry it
+            for _ in range(4):
+                try:
+                    text2, der2, names2 = g.conf_message(st, 'random')
+                except Exception:  # noqa
+                    break
+                if any(n in ex.get(v, []) for n in names2):
+                    continue
+                rep_groups = sorted(set(n[1] for n in der2 if n[0] == 'G' and sum(1 for x in der2 if x[0] == 'G' and x[1] == n[1]) > 1))
+                if not rep_groups:
+                    continue
+                G = rng.choice(rep_groups)
+                gref = lib.GROUPS.get(G)
+                if gen.is_seq(gref) and len(gref) >= 2 and gen.is_seq(gref[1]):
+                    rows = [r for r in gref[1] if gen.is_seq(r) and len(r) == 4 and gen.is_seq(r[2]) and len(r[2]) == 2]
+                    if rows and len(set(r[0] for r in rows)) == len(rows):
+                        r = rng.choice(rows)
+                        e = ['C', 'g', G, r[0], r[2][0], 7 if r[2][1] == -1 else r[2][1] + 1]
+                        jobs.append((text2, False, fg, (v, st, [e], 'present')))
+                        meta.append({'kind': 'edit', 'version': v, 'structure': st, 'edit': e, 'repeated_group': G})
+                break
             for e, groups in cands:
                 for strict in ((False, True) if rng.random() < .5 else (False,)):
                     jobs.append((text, strict, fg, (v, st, [list(e)], 'present')))
                     meta.append({'kind': 'edit', 'version': v, 'structure': st, 'edit': list(e)})
                 cjobs.append((v, st, groups, list(e), rng.random() < .5))
-    res = vlib.pmap(pmsg, jobs, chunk=8)
+    res0 = vlib.pmap(pmsg, jobs, chunk=8)
+    res = [r.split(' @ ')[0] for r in res0]
+    for j, mt, r in zip(jobs, meta, res0):
+        if ' @ ' in r:
+            chk.evals += 1
+            chk.fail(None, {'clause': "an element parsed under a profile carries the profile's sub-reference for its position", 'failed': json.loads(r.split(' @ ', 1)[1]), **mt},
+                     {'text': j[0], 'strict': j[1], 'find_groups': j[2], 'spec': list(j[3])})
     lines = [model_line(j) for j in jobs]
     idx = [i for i, l in enumerate(lines) if l is not None]
     mo = vlib.run_driver([lines[i] for i in idx])
